@@ -62,6 +62,11 @@ def run(ctx: Ctx):
     src = ast.unparse(ld.node)
     ok = "x_dict = dict(x)" in src.replace("x = np.load(filename)\n", "x = np.load(filename)\n") and "TensorDict(x_dict, batch_size=batch_size)" in src and ".shape[0]" in src
     ctx.ob("C19.a", "load_npz_to_tensordict:all-keys", ok, ld.loc, "TensorDict built from dict(np.load(file)) -- all keys, batch size = leading axis", construct="load_npz_to_tensordict:keys")
+    nodeco = not ld.node.decorator_list
+    ctx.ob("C19.a", "load_npz_to_tensordict:fresh-object", nodeco, ld.loc,
+           "every call builds a new TensorDict (no memoisation): callers such as CVRPEnv.load_data modify the result in place" if nodeco else
+           f"the loader is decorated with {[ast.unparse(d) for d in ld.node.decorator_list]}: repeated loads share one mutable TensorDict that load_data transformations modify in place",
+           construct="load_npz_to_tensordict:decorated")
     # ---------------- b: generated datasets
     gm = ctx.repo.module_by_path(GD)
     n_pairs = 0
@@ -138,6 +143,19 @@ def run(ctx: Ctx):
     g, gsl = generator_slot(ctx.repo, fenv.cls)
     gen_keys = set(gsl.td.cells) if gsl is not None and gsl.td is not None else set()
     ctx.ob("C19.c", "fjsp-parser:keys==generator-keys", bool(keys_r) and keys_r == gen_keys, r.loc, f"file reader yields {sorted(keys_r)}; random generator yields {sorted(gen_keys)}", construct="fjsp.parser:keys")
+    # padding mask: reader and random generator agree (operation index >= number of real operations)
+    def pad_cmp(fn_node):
+        for n in ast.walk(fn_node):
+            if isinstance(n, ast.Call) and isinstance(n.func, ast.Attribute) and n.func.attr in ("ge", "gt", "le", "lt") and "arange" in ast.unparse(n.func.value) + "".join(
+                    ast.unparse(a.value) for a in ast.walk(fn_node) if isinstance(a, ast.Assign) and isinstance(a.targets[0], ast.Name) and a.targets[0].id == ast.unparse(n.func.value)):
+                return n.func.attr
+            if isinstance(n, ast.Compare) and "arange" in ast.unparse(n.left):
+                return type(n.ops[0]).__name__
+        return None
+    gfi = ctx.repo.resolve_method(g, "_generate") if g is not None else None
+    pr, pg = pad_cmp(r.node), (pad_cmp(gfi.node) if gfi is not None else None)
+    ctx.ob("C19.c", "fjsp:pad_mask-comparison", pr == "ge" and pg == "ge", r.loc,
+           f"reader: arange(max_ops).{pr}(total_ops); generator: .{pg}(n_ops): padding starts exactly at the first index after the real operations", construct="fjsp.parser:pad-mask")
     # ---------------- d: pickle hooks
     base = ctx.repo.get_class("rl4co/envs/common/base.py", "RL4COEnvBase")
     gs, ss = base.methods["__getstate__"], base.methods["__setstate__"]
@@ -160,8 +178,9 @@ def run(ctx: Ctx):
     lc = ctx.repo.get_function("rl4co/models/rl/reinforce/reinforce.py", "REINFORCE.load_from_checkpoint")
     ctx.fn(lc)
     src = ast.unparse(lc.node)
-    ok = "if 'baseline' in k" in src and "k.replace('baseline.', '', 1)" in src and "loaded.baseline.load_state_dict(state_dict)" in src and src.index("loaded.setup()") < src.index("load_state_dict")
-    ctx.ob("C19.e", "REINFORCE.load_from_checkpoint:prefix", ok, lc.loc, "baseline.* entries are selected, the 'baseline.' prefix is stripped once, after setup() created the baseline", construct="REINFORCE.load_from_checkpoint:prefix")
+    ok = "if 'baseline' in k" in src and "k.replace('baseline.', '', 1)" in src and "loaded.baseline.load_state_dict(state_dict)" in src and src.index("loaded.setup()") < src.index("load_state_dict") \
+        and "loaded.post_setup_hook()" in src and src.index("loaded.post_setup_hook()") < src.index("load_state_dict")
+    ctx.ob("C19.e", "REINFORCE.load_from_checkpoint:prefix", ok, lc.loc, "baseline.* entries are selected, the 'baseline.' prefix is stripped once, after setup() and post_setup_hook() created the baseline modules that receive the state", construct="REINFORCE.load_from_checkpoint:prefix")
 
 
 def _copy_var(fn_node):
